@@ -93,5 +93,16 @@ func (v *Vue) evalInclude(ctx VueContext, node *html.Node, vars map[string]any, 
 		return nil, fmt.Errorf("error in %s (included from %s): %w", name, ctx.FormatTemplateChain(), err)
 	}
 
+	// A root <template> tag has been evaluated by evalTemplate already (its
+	// children, or the file it includes). Evaluating that output a second time
+	// would interpret printed data as template code and see every v-once
+	// element as "already rendered".
+	if len(compDom) > 0 {
+		root := compDom[0]
+		if root.Type == html.ElementNode && root.Data == "template" && !helpers.HasAttr(root, "data-v-html-content") {
+			return processedDom, nil
+		}
+	}
+
 	return v.evaluate(childCtx, processedDom, depth+1)
 }
